@@ -285,9 +285,9 @@ def c02c(ctx):
     ctx.check(ok, 'TileMatrixSet._tile_matrices:topleft', 'topleft = (minx, maxy), swapped to (maxy, minx) only for north/east axis order', tm,
               fail='TopLeftCorner is not (bbox[0], bbox[3]) (swapped only under is_axis_order_ne)')
     ys = [x for x in tm.walk() if is_call(x, 'bunch')]
-    ok = bool(ys) and keyword(ys[0], 'grid_size') is not None and unparse(keyword(ys[0], 'tile_size')) == 'self.grid.tile_size' \
-        and unparse(keyword(ys[0], 'identifier')) == 'level'
-    ok = ok and unparse(resolve1(keyword(ys[0], 'grid_size'), defs)) == 'self.grid.grid_sizes[level]'
+    ok = bool(ys) and keyword(ys[0], 'grid_size') is not None and same(keyword(ys[0], 'tile_size'), 'self.grid.tile_size') \
+        and same(keyword(ys[0], 'identifier'), 'level')
+    ok = ok and same(keyword(ys[0], 'grid_size'), 'self.grid.grid_sizes[level]')
     ctx.check(ok, 'TileMatrixSet._tile_matrices:per-level-values', 'identifier, grid size, tile size and corner of one matrix come from the same level', tm)
 
 
